@@ -11,7 +11,10 @@ import (
 	"go/ast"
 	"go/token"
 	"go/types"
+	"golang.org/x/mod/module"
+	"golang.org/x/mod/semver"
 	"os"
+	"os/exec"
 	"path/filepath"
 	"sort"
 	"strings"
@@ -93,6 +96,7 @@ func Load(cfg Config) (*Program, error) {
 	}
 	fmt.Fprintf(&sb, "go %s\n\nuse (\n", goVersion)
 	nuse := 0
+	var usedDirs, excludedDirs []string
 	for _, u := range wf.Use {
 		p := u.Path
 		if !filepath.IsAbs(p) {
@@ -100,15 +104,18 @@ func Load(cfg Config) (*Program, error) {
 		}
 		// examples are never analysed and some need modules absent from the cache
 		if strings.HasPrefix(p, filepath.Join(repo, "examples")+string(filepath.Separator)) {
+			excludedDirs = append(excludedDirs, p)
 			continue
 		}
 		if _, err := os.Stat(filepath.Join(p, "go.mod")); err != nil {
 			continue
 		}
 		fmt.Fprintf(&sb, "\t%s\n", p)
+		usedDirs = append(usedDirs, p)
 		nuse++
 	}
 	sb.WriteString(")\n")
+	sb.WriteString(cachedReplacements(usedDirs, excludedDirs))
 	if nuse == 0 {
 		return nil, fmt.Errorf("go.work has no usable `use` entries")
 	}
@@ -252,4 +259,65 @@ func NamedOf(t types.Type) *types.Named {
 			return nil
 		}
 	}
+}
+
+// cachedReplacements: in the repository's own workspace the example modules (not loaded here) take part in version
+// selection. Where an excluded module requires a newer version of a dependency than a used module does, and only that
+// newer version is in the module cache, the used module's requirement is redirected to it with a workspace-level
+// replace — which is what minimal version selection does in the full workspace.
+func cachedReplacements(moduleDirs, excludedDirs []string) string {
+	out, err := exec.Command("go", "env", "GOMODCACHE").Output()
+	if err != nil {
+		return ""
+	}
+	cache := strings.TrimSpace(string(out))
+	if cache == "" {
+		return ""
+	}
+	cached := func(path, version string) bool {
+		esc, err := module.EscapePath(path)
+		if err != nil {
+			return false
+		}
+		_, err = os.Stat(filepath.Join(cache, esc+"@"+version))
+		return err == nil
+	}
+	requires := func(dir string) []module.Version {
+		data, err := os.ReadFile(filepath.Join(dir, "go.mod"))
+		if err != nil {
+			return nil
+		}
+		mf, err := modfile.Parse("go.mod", data, nil)
+		if err != nil {
+			return nil
+		}
+		var out []module.Version
+		for _, r := range mf.Require {
+			out = append(out, r.Mod)
+		}
+		return out
+	}
+	// newest cached version that an excluded module asks for, per path
+	raised := map[string]string{}
+	for _, dir := range excludedDirs {
+		for _, r := range requires(dir) {
+			if semver.IsValid(r.Version) && cached(r.Path, r.Version) && (raised[r.Path] == "" || semver.Compare(r.Version, raised[r.Path]) > 0) {
+				raised[r.Path] = r.Version
+			}
+		}
+	}
+	done := map[string]bool{}
+	var sb strings.Builder
+	for _, dir := range moduleDirs {
+		for _, r := range requires(dir) {
+			up := raised[r.Path]
+			key := r.Path + "@" + r.Version
+			if up == "" || done[key] || !semver.IsValid(r.Version) || semver.Compare(up, r.Version) <= 0 || cached(r.Path, r.Version) {
+				continue
+			}
+			done[key] = true
+			fmt.Fprintf(&sb, "replace %s %s => %s %s\n", r.Path, r.Version, r.Path, up)
+		}
+	}
+	return sb.String()
 }
